@@ -1,7 +1,261 @@
-(* C08 placeholder while the proofs are being written *)
+(* C08 - Container focus is always a valid child and input follows the focus path.
+   Only statements here; every proof is [exact <lemma>] into Proofs/Containers*.v (or a closed computation).
+   The model (Model/Containers.v) is a heap of widgets whose [contents] are C16 focus lists; the range
+   tests of the focus_position setters and the key->command table are regenerated from /repo on every
+   run (Gen/c08_container_gen.v); everything else is tied to the code by the extracted-model
+   correspondence (harness/props/c08.py).  [run root h ops] is any history of keypresses, button-1
+   presses, focus_position / set_focus_path assignments, contents edits (every C16 list operation),
+   Frame header/footer replacement, each followed by a render - no bound on the history or the tree. *)
 From Coq Require Import ZArith List Bool.
 Import ListNotations.
-From Urwid Require Import PyBase PyList Containers.
+From Urwid Require Import PyBase PyList c08_container_gen Containers
+  ContainersBase ContainersProofs ContainersSel ContainersRouting ContainersPath ContainersArrows.
+From Urwid Require MonitoredList MonitoredListProofs.
 Open Scope Z_scope.
-Theorem c08_placeholder : True. Proof. exact I. Qed.
-Print Assumptions c08_placeholder.
+
+(* ============ clause 1: focus validity after ANY history ============
+   For every widget n of the heap reached by any operation sequence from any constructed pool:
+   - Pile/Columns/GridFlow/ListBox: empty => focus_position raises IndexError and focus is None;
+     non-empty => focus_position is a position p in range and focus is the child at p;
+   - Frame (when every Frame was constructed with an existing focus part): focus is the part named;
+   - Overlay: position 1, the top widget. *)
+Theorem focus_valid_inv :
+  forall specs root ops id n,
+    let h' := rs_h (fst (run root (build FUEL specs) ops)) in
+    getn h' id = Some n -> focus_valid_at h' id n (Forall spec_ok specs).
+Proof. exact focus_valid_all_histories. Qed.
+Print Assumptions focus_valid_inv.
+
+(* the invariant itself, for any heap satisfying it (strict = true includes the Frame clause) *)
+Theorem focus_invariant_preserved :
+  forall strict root h ops, Inv (node_ok strict) h -> Inv (node_ok strict) (rs_h (fst (run root h ops))).
+Proof. exact run_pres. Qed.
+Print Assumptions focus_invariant_preserved.
+
+(* The Frame clause does NOT hold for every constructed pool: Frame(body, header=None, focus_part='header')
+   is accepted (finding C08-frame-ctor-accepts-missing-part; replayed by corpus/C08/frame_ctor.json). *)
+Definition focus_valid_frames_full : Prop :=
+  forall specs root ops id n,
+    let h' := rs_h (fst (run root (build FUEL specs) ops)) in
+    getn h' id = Some n -> focus_valid_at h' id n True.
+Theorem focus_valid_frames_refuted :
+  exists specs id,
+    let h := build FUEL specs in
+    get_pos h id = ROk 101 /\ focus_child h id = None /\ gfp FUEL h id = RErr EAttr.
+Proof.
+  exists [SLeaf 10 false 0 true []; SFrame 10 false 0 0 None None 101], 1.
+  vm_compute. repeat split; reflexivity.
+Qed.
+Print Assumptions focus_valid_frames_refuted.
+
+(* assigning an invalid position raises IndexError (ListBox: TypeError for a string position, finding
+   C08-listbox-string-position-typeerror) ... *)
+Theorem invalid_position_raises :
+  forall h id pos n, getn h id = Some n -> MonitoredListProofs.Valid (n_c n) ->
+  match nk n with
+  | KLeaf => True
+  | KPile | KCols | KGrid => ~ (0 <= pos < nlen n) -> set_pos id pos h = (h, RErr EIndex)
+  | KLBox => ~ (0 <= pos < nlen n) ->
+      exists h', set_pos id pos h = (h', RErr (if (100 <=? pos) && negb (is_empty n) then EType else EIndex))
+  | KFrame => ~ parts_ok (n_b n) (n_d n) pos \/ ~ (pos = 100 \/ pos = 101 \/ pos = 102) -> set_pos id pos h = (h, RErr EIndex)
+  | KOvl => pos <> 1 -> set_pos id pos h = (h, RErr EIndex)
+  end.
+Proof. exact set_pos_invalid_raises. Qed.
+Print Assumptions invalid_position_raises.
+
+(* ... and whatever assignment raises leaves every focus_position and every focus widget unchanged *)
+Theorem failed_assignment_changes_no_focus :
+  forall h id pos h' e, set_pos id pos h = (h', RErr e) ->
+    forall x, get_pos h' x = get_pos h x /\ focus_child h' x = focus_child h x.
+Proof. exact set_pos_error_keeps_focus. Qed.
+Print Assumptions failed_assignment_changes_no_focus.
+
+(* ============ clause 2: a keypress is offered only to widgets on the focus path ============ *)
+(* proved when no ListBox has a pending focus request (true after every render, which the harness does
+   after every operation) *)
+Theorem key_only_on_focus_path_partial :
+  forall f id key h h' k1 off, NoPending h -> kp f id key h = (h', ROk (k1, off)) ->
+    forall l, In l off -> OnPath h id l.
+Proof. exact key_only_on_focus_path_nopending. Qed.
+Print Assumptions key_only_on_focus_path_partial.
+
+(* full statement (NOT proved): with pending requests, ListBox.keypress first completes them, so the
+   path is the one in the heap at the moment of the offer: pending requests completed along the route. *)
+Fixpoint offer_heap (fuel : nat) (id : Z) (key : list Z) (h : heap) : heap :=
+  match fuel with
+  | O => h
+  | S f =>
+    match getn h id with
+    | None => h
+    | Some n =>
+      let descend h1 := match focus_child h1 id with
+                        | Some c => if sel f h1 c then offer_heap f c key h1 else h1
+                        | None => h1 end in
+      match nk n with
+      | KLeaf => h
+      | KPile => if n_selc n then match focus_child h id with Some c => offer_heap f c key h | None => h end else h
+      | KCols => if is_empty n then h else
+                 descend (fst ((if negb (is_vert_or_page (cmd_of (Some key))) then w_pref id PNone else ret tt) h))
+      | KGrid => if any_sel f h n then descend h else h
+      | KFrame => descend h
+      | KOvl => match focus_child h id with Some c => offer_heap f c key h | None => h end
+      | KLBox => descend (fst ((if pending n then lb_complete f id true else ret tt) h))
+      end
+    end
+  end.
+Definition key_only_on_focus_path_full : Prop :=
+  forall f id key h h' k1 off,
+    NoDup (path_nodes f (offer_heap f id key h) id) ->      (* a tree: no widget twice on the path *)
+    kp f id key h = (h', ROk (k1, off)) ->
+    forall l, In l off -> OnPath (offer_heap f id key h) id l.
+
+(* ============ clause 3: an unhandled key comes back unchanged ============ *)
+(* proved for keys that are not bound to a navigation command, when nothing is pending and no Pile has a
+   stale selectable() == False cache *)
+Theorem unhandled_key_unchanged_partial :
+  forall f id key h h' k1 off, NoPending h -> PileCacheOK h -> nonnav key = true ->
+    kp f id key h = (h', ROk (k1, off)) -> NoHandler h key off -> k1 = Some key.
+Proof. exact unhandled_key_unchanged_nopending. Qed.
+Print Assumptions unhandled_key_unchanged_partial.
+
+(* the full statement is FALSE of the faithful model (findings C08-pile-unselectable-swallows-key,
+   C08-columns-empty-keypress-indexerror; replayed by corpus/C08/pile_swallows_key.json, columns_empty_key.json) *)
+Definition unhandled_key_unchanged_full : Prop :=
+  forall f id key h h' r, nonnav key = true -> kp f id key h = (h', r) ->
+    match r with ROk (k1, off) => NoHandler h key off -> k1 = Some key | RErr _ => False end.
+
+Definition stale_pile_pool : list spec :=
+  [SLeaf 10 false 0 false []; SLeaf 10 false 0 false []; SList KPile 10 false 0 None [1] 0 0 0;
+   SList KPile 10 false 0 None [0; 2] 0 0 0; SLeaf 10 false 0 true []].
+Theorem unhandled_key_unchanged_refuted :
+  (* a grandchild edit makes the inner Pile selectable; the outer Pile's cache stays False;
+     then the key 'x' moves the outer focus and comes back as None *)
+  (let h := fst (edit FUEL 2 (MonitoredList.Append 4) (build FUEL stale_pile_pool)) in
+   nonnav [120] = true /\ get_pos h 3 = ROk 0 /\
+   snd (kp FUEL 3 [120] h) = ROk (None, []) /\ get_pos (fst (kp FUEL 3 [120] h)) 3 = ROk 1)
+  /\
+  (* an empty Columns raises IndexError from keypress *)
+  snd (kp FUEL 0 [120] (build FUEL [SList KCols 10 false 0 None [] 0 0 0])) = RErr EIndex.
+Proof. vm_compute. repeat split; reflexivity. Qed.
+Print Assumptions unhandled_key_unchanged_refuted.
+
+(* ============ clause 4: arrow keys move focus only onto selectable children ============ *)
+(* proved at the decision points of the containers: the child an arrow key gives the focus to had
+   selectable() == True when it was chosen *)
+Theorem arrows_land_on_selectable_columns :
+  forall f id cands h h' n, getn h id = Some n -> nk n = KCols -> cols_move f id cands h = (h', ROk true) ->
+    exists j c, In j cands /\ nthz (items n) j = Some c /\ sel f h c = true /\ focus_child h' id = Some c.
+Proof. exact cols_move_lands_on_selectable. Qed.
+Print Assumptions arrows_land_on_selectable_columns.
+
+Theorem arrows_land_on_selectable_pile :
+  forall f id up cands h h' n, getn h id = Some n -> nk n = KPile -> pile_move f id up cands h = (h', ROk true) ->
+    exists j c h1 h2, In j cands /\ nthz (items n) j = Some c /\ sel f h c = true /\
+      upd_pref_from_focus f id h = (h1, ROk tt) /\ w_focus id j h1 = (h2, ROk tt).
+Proof. exact pile_move_lands_on_selectable. Qed.
+Print Assumptions arrows_land_on_selectable_pile.
+
+(* Columns.move_cursor_to_coords / the rows of a GridFlow: the column picked is selectable *)
+Theorem arrows_land_on_selectable_pick :
+  forall l dv col j xx e, cols_pick l dv col = Some (j, xx, e) -> exists w, nthz l j = Some (w, true).
+Proof. exact cols_pick_selectable. Qed.
+Print Assumptions arrows_land_on_selectable_pick.
+
+(* full statement (NOT proved; decided by the correspondence and the oracle): after a keypress with an arrow
+   key every focus that changed anywhere in the tree points to a child that was selectable *)
+Definition is_arrow (key : list Z) : bool := existsb (Z.eqb (cmd_of (Some key))) [1; 2; 3; 4].
+Definition arrows_land_on_selectable_full : Prop :=
+  forall f id key h h' r, Inv (node_ok false) h -> NoPending h -> is_arrow key = true ->
+    kp f id key h = (h', ROk r) ->
+    forall x c, focus_child h' x = Some c -> focus_child h x = Some c \/ exists f', sel f' h c = true.
+
+(* ============ clause 5: selectable() iff a child is, right after the contents were set ============ *)
+Theorem selectable_iff_child :
+  forall f id e h h' n, getn h id = Some n -> nk n = KPile \/ nk n = KCols ->
+    edit f id e h = (h', ROk tt) ->
+    exists n', getn h' id = Some n' /\ items n' = MonitoredList.items (fst (MonitoredList.step (n_c n) e)) /\
+      ((forall c, In c (items n') -> ~ In id (sel_reads f h' c)) ->          (* the container is not its own descendant *)
+       n_selc n' = existsb (sel f h') (items n')).
+Proof. exact edit_selectable_iff_child. Qed.
+Print Assumptions selectable_iff_child.
+
+Theorem selectable_iff_child_gridflow :
+  forall f h id n, getn h id = Some n -> nk n = KGrid -> sel (S f) h id = existsb (sel f h) (items n).
+Proof. exact grid_selectable_iff_child. Qed.
+Print Assumptions selectable_iff_child_gridflow.
+
+(* ============ clause 6: only the focus path is rendered with focus ============ *)
+Theorem only_focus_path_rendered_with_focus_partial :
+  forall f id focus h h' l, NoPending h -> rn f id focus h = (h', ROk l) ->
+    h' = h /\ forall x, In x l -> focus = true /\ OnPath h id x.
+Proof. exact rn_nopending. Qed.
+Print Assumptions only_focus_path_rendered_with_focus_partial.
+
+(* full statement (NOT proved): render completes pending ListBox requests on its way; the leaves rendered with
+   focus are on the focus path of the heap it leaves behind *)
+Definition only_focus_path_rendered_with_focus_full : Prop :=
+  forall f id h h' l, NoDup (path_nodes f h' id) -> rn f id true h = (h', ROk l) ->
+    forall x, In x l -> OnPath h' id x.
+
+(* ============ clause 7: get_focus_path / set_focus_path round trip ============ *)
+(* h: the heap the path was read from; h2: any later heap with the same widgets and contents (focus, pref_col,
+   pending requests may all differ).  Hypotheses: both satisfy the focus invariant, lists are shorter than the
+   model's string-position codes (100), no widget occurs twice on the path. *)
+Theorem focus_path_roundtrip :
+  forall f h r p h2,
+    Inv (node_ok true) h -> Inv (node_ok true) h2 -> SmallLists h ->
+    gfp f h r = ROk p -> ShapeSame h h2 -> NoDup (path_nodes f h r) ->
+    exists h3, sfp p r h2 = (h3, ROk tt) /\ gfp f h3 r = ROk p /\
+               (forall x, ~ In x (path_nodes f h r) -> getn h3 x = getn h2 x) /\ ShapeSame h h3 /\ Inv (node_ok true) h3.
+Proof. exact focus_path_roundtrip_strong. Qed.
+Print Assumptions focus_path_roundtrip.
+
+(* ============ the translated code means what the proofs use ============ *)
+Theorem translated_range_tests :
+  (forall k pos len, k = KPile \/ k = KCols \/ k = KGrid -> (pos_invalid k pos len = false <-> 0 <= pos < len)) /\
+  (forall pos, overlay_pos_invalid_gen pos = false <-> pos = 1).
+Proof. split; [exact pos_invalid_spec|exact overlay_pos_invalid_spec]. Qed.
+Print Assumptions translated_range_tests.
+
+(* the navigation commands of the translated key table *)
+Theorem translated_command_table :
+  cmd_of (Some [117; 112]) = 1 /\ cmd_of (Some [100; 111; 119; 110]) = 2 /\
+  cmd_of (Some [108; 101; 102; 116]) = 3 /\ cmd_of (Some [114; 105; 103; 104; 116]) = 4 /\
+  cmd_of (Some [112; 97; 103; 101; 32; 117; 112]) = 5 /\ cmd_of (Some [112; 97; 103; 101; 32; 100; 111; 119; 110]) = 6 /\
+  cmd_of (Some [104; 111; 109; 101]) = 7 /\ cmd_of (Some [101; 110; 100]) = 8 /\
+  nonnav [116; 97; 98] = true /\ nonnav [120] = true /\ nonnav [32] = true /\ nonnav [101; 110; 116; 101; 114] = true.
+Proof. vm_compute. repeat split; reflexivity. Qed.
+Print Assumptions translated_command_table.
+
+(* ============ non-vacuity ============ *)
+(* a pool: Frame(body = Pile[ Columns[a b c], d ], footer = e) *)
+Definition demo_pool : list spec :=
+  [SLeaf 10 false 0 true [[120]]; SLeaf 10 false 0 false []; SLeaf 10 false 0 true [];
+   SList KCols 60 false 0 None [0; 1; 2] 1 0 0; SLeaf 60 false 0 true [];
+   SList KPile 60 false 0 None [3; 4] 0 0 0; SLeaf 60 false 0 true [];
+   SFrame 60 false 0 5 None (Some 6) 100].
+
+Example demo_invariant : Inv (node_ok true) (build FUEL demo_pool) /\ NoPending (build FUEL demo_pool) /\ PileCacheOK (build FUEL demo_pool).
+Proof.
+  split; [apply build_ok; intros _; repeat constructor; left; reflexivity|]. split.
+  - intros id n G. unfold getn, nthz in G. destruct (id <? 0); [discriminate|].
+    do 8 (destruct (Z.to_nat id) as [|?]; [injection G as <-; reflexivity|]; cbn in G). destruct n0; discriminate.
+  - intros id n G K S. unfold getn, nthz in G. destruct (id <? 0); [discriminate|].
+    do 8 (destruct (Z.to_nat id) as [|?]; [injection G as <-; try discriminate|]; cbn in G). destruct n0; discriminate.
+Qed.
+
+(* 'x' is handled by leaf 0; 'right' skips the unselectable column; 'down' leaves the Columns; a press on the
+   footer moves the Frame's focus; an invalid assignment raises; deleting the focused column keeps the focus valid *)
+Example demo_run :
+  let '(s, out) := run 7 (build FUEL demo_pool)
+       [OKey [120]; OKey [114; 105; 103; 104; 116]; OKey [100; 111; 119; 110]; OPress [102]; OSetPos [100] 7;
+        OEdit [100; 0] (MonitoredList.DelItem 2)] in
+  (map (fun id => get_pos (rs_h s) id) [3; 5; 7], gfp FUEL (rs_h s) 7)
+  = ([ROk 1; ROk 1; ROk 102], ROk [102]).
+Proof. vm_compute. reflexivity. Qed.
+
+Example demo_key_routing :
+  snd (kp FUEL 7 [120] (build FUEL demo_pool)) = ROk (None, [0]) /\
+  snd (kp FUEL 7 [121] (build FUEL demo_pool)) = ROk (Some [121], [0]) /\
+  snd (rn FUEL 7 true (build FUEL demo_pool)) = ROk [0].
+Proof. vm_compute. repeat split; reflexivity. Qed.
